@@ -1,5 +1,10 @@
 use crate::state::COMPONENT;
+#[cfg(not(kani))]
 use bytes::{BufMut, Bytes, BytesMut};
+#[cfg(kani)]
+use bytes::Bytes;
+#[cfg(kani)]
+use iggy::verif_model::bytesmut::{BufMut, BytesMut};
 use error_set::ErrContext;
 use iggy::bytes_serializable::BytesSerializable;
 use iggy::command::Command;
